@@ -309,8 +309,14 @@ def bind_loop(ev: Evaluator, fr, loop: ast.For, env: Dict[str, Any]) -> Optional
     def names_of(t):
         if isinstance(t, ast.Name):
             return [t.id]
-        if isinstance(t, (ast.Tuple, ast.List)) and all(isinstance(e, ast.Name) for e in t.elts):
-            return [e.id for e in t.elts]
+        if isinstance(t, (ast.Tuple, ast.List)):
+            out = []
+            for e in t.elts:
+                sub = names_of(e)
+                if sub is None:
+                    return None
+                out.extend(sub)
+            return out
         return None
     tn = names_of(tgt)
     if tn is None:
@@ -330,6 +336,23 @@ def bind_loop(ev: Evaluator, fr, loop: ast.For, env: Dict[str, Any]) -> Optional
             return None
         idx = ev.symbol(tgt.id)
         return LoopBinding(idx, lo, hi, {tgt.id: idx}, f"range({lo}, {hi})")
+    # enumerate(<zip / other recognised iterable>, start) with a nested target: bind the inner loop, then the counter
+    if isinstance(it, ast.Call) and isinstance(it.func, ast.Name) and it.func.id == "enumerate" and it.args and isinstance(tgt, ast.Tuple) and len(tgt.elts) == 2 \
+            and isinstance(tgt.elts[0], ast.Name) and isinstance(it.args[0], ast.Call) and isinstance(it.args[0].func, ast.Name) and it.args[0].func.id in ("zip", "range"):
+        startv = Rat.const(0)
+        if len(it.args) == 2:
+            startv = fr.expr(it.args[1], env)
+        for kw in it.keywords:
+            if kw.arg == "start":
+                startv = fr.expr(kw.value, env)
+        if not isinstance(startv, Rat):
+            return None
+        inner = bind_loop(ev, fr, ast.For(target=tgt.elts[1], iter=it.args[0], body=[], orelse=[]), env)
+        if inner is None:
+            return None
+        bindings = dict(inner.bindings)
+        bindings[tgt.elts[0].id] = inner.idx.sub(inner.lo).add(startv)
+        return LoopBinding(inner.idx, inner.lo, inner.hi, bindings, "enumerate of " + inner.what)
     # zip(a[k1:m1], a[k2:m2], ...): position p visits a[k1+p], a[k2+p], ... ; all slices must have the same length
     if isinstance(it, ast.Call) and isinstance(it.func, ast.Name) and it.func.id == "zip" and not it.keywords and len(it.args) >= 2 \
             and isinstance(tgt, (ast.Tuple, ast.List)) and len(tgt.elts) == len(it.args) and all(isinstance(e, ast.Name) for e in tgt.elts):
